@@ -4,13 +4,17 @@ C05 — every well-formed statement row becomes exactly one transaction, faithfu
 Model: `Csv.parseRow` / `Csv.parseFile` (hand model of `parsers.parse_generic_csv` with `rules=[]`, tied by
 differential correspondence in harness/props/c05.py) and `Csv.cleanAmount` / `Csv.parseAmountExact`
 (`parsers.parse_amount` up to the call of `float()`).  `float()` and `datetime.strptime` are the fields of
-`o : Oracles`; every theorem holds for all of them.  A float is its IEEE bit pattern (`F64`).
+`o : Oracles`; every theorem of the first part holds for all of them.  A float is its IEEE bit pattern (`F64`).
+The LAST part ("the date") instantiates the date oracle with `Strptime.strptime`, the model of CPython's `_strptime`
+(Model/Strptime.lean, tied to `datetime.strptime` by its own dense correspondence): there `parseRow` / `parseFile` have
+no date oracle left - only `float()` and CPython's character tables (`Strptime.Tables`) remain parameters.
 
 `cfg.skipNonFinite = true` is the code with repair D5 (`if not math.isfinite(amount): continue`);
 `false` is the tree before it.  `accept_iff` needs the repair; `d5_unrepaired_accepts_nan` is the
 counterexample on the unrepaired model (the harness replays the same table on the real code).
 -/
 import TallyVerif.Lemmas.Csv
+import TallyVerif.Lemmas.Strptime
 
 namespace TallyVerif.Props.C05
 open TallyVerif.Csv
@@ -19,7 +23,8 @@ open TallyVerif.Csv
 
 /-- No row raises an exception that the per-row `except (ValueError, IndexError)` lets through
 (`KeyError` from a template naming a column that is not captured, `AttributeError` from a hand-built
-`FormatSpec` without captures/template).  `parse_format_string` rules these out; see `noFatal_simple`. -/
+`FormatSpec` without captures/template, `re.error` from a date format with a repeated directive).  `parse_format_string`
+rules the first two out, `DateFormatOk` the third; see `noFatal_simple`. -/
 def NoFatal (o : Oracles) (cfg : Cfg) (rows : List (List Str)) : Prop :=
   ∀ r ∈ rows, rowFatal o cfg r = false
 
@@ -35,8 +40,16 @@ theorem parseFile_fatal (o : Oracles) (cfg : Cfg) (pre : List (List Str)) (r : L
     parseFile o cfg (pre ++ r :: post) = .error e :=
   foldl_step_fatal o cfg pre r post hpre e he hf
 
-/-- an exception that escapes the per-row `except` can only come from building the description -/
-private theorem fatal_only_from_describe (o : Oracles) (cfg : Cfg) (r : List Str) (e : Err)
+/-- The date format is one `datetime.strptime` can work with: whatever the text, the call returns a date or raises
+`ValueError` (caught per row) - never `re.error` (a format that uses the same directive twice: *redefinition of group name*,
+which the per-row `except (ValueError, IndexError)` does NOT catch).  For the model of `strptime` this is
+`compile fmt = .ok _` (`dateFormatOk_of_compile` below); `dup_directive_aborts_file` is the excluded case. -/
+def DateFormatOk (o : Oracles) (cfg : Cfg) : Prop :=
+  ∀ tok e, o.strptime cfg.spec.dateFormat tok = .error e → e = .valueError
+
+/-- an exception that escapes the per-row `except` can only come from building the description (given a date format
+that compiles) -/
+private theorem fatal_only_from_describe (o : Oracles) (cfg : Cfg) (hdf : DateFormatOk o cfg) (r : List Str) (e : Err)
     (h : parseRow o cfg r = .error e) (hf : e.fatal = true) : describe cfg.spec r = .error e := by
   unfold parseRow at h
   dsimp only at h
@@ -49,7 +62,10 @@ private theorem fatal_only_from_describe (o : Oracles) (cfg : Cfg) (r : List Str
       · split at h
         · cases h; simp [Err.fatal] at hf
         · split at h
-          · cases h; simp [Err.fatal] at hf
+          · rename_i e' he'
+            cases h
+            rw [hdf _ _ he'] at hf
+            simp [Err.fatal, DateErr.toErr] at hf
           · split at h
             · cases h; simp [Err.fatal] at hf
             · split at h
@@ -59,7 +75,7 @@ private theorem fatal_only_from_describe (o : Oracles) (cfg : Cfg) (r : List Str
                 · cases h
 
 /-- With `{description}` in the format (mode 1) no row can raise anything but what is caught. -/
-theorem noFatal_simple (o : Oracles) (cfg : Cfg) (rows : List (List Str)) (dc : Nat)
+theorem noFatal_simple (o : Oracles) (cfg : Cfg) (hdf : DateFormatOk o cfg) (rows : List (List Str)) (dc : Nat)
     (hm : cfg.spec.descCol = some dc) : NoFatal o cfg rows := by
   intro r _
   unfold rowFatal
@@ -69,13 +85,13 @@ theorem noFatal_simple (o : Oracles) (cfg : Cfg) (rows : List (List Str)) (dc : 
     cases hf : e.fatal with
     | false => exact hf
     | true =>
-      have := fatal_only_from_describe o cfg r e hp hf
+      have := fatal_only_from_describe o cfg hdf r e hp hf
       simp [describe, hm] at this
 
 /-- Mode 2 with a template that is literal text and `{name}` references to captured columns (what
 `parse_format_string` accepts; `renderSegs` doubles literal braces): no row can raise anything but what is caught. -/
-theorem noFatal_template (o : Oracles) (cfg : Cfg) (rows : List (List Str)) (cc : List (Str × Nat)) (segs : List Seg)
-    (hm : cfg.spec.descCol = none) (hcc : cfg.spec.customCaptures = some cc)
+theorem noFatal_template (o : Oracles) (cfg : Cfg) (hdf : DateFormatOk o cfg) (rows : List (List Str)) (cc : List (Str × Nat))
+    (segs : List Seg) (hm : cfg.spec.descCol = none) (hcc : cfg.spec.customCaptures = some cc)
     (htpl : cfg.spec.template = some (renderSegs segs)) (hrefs : refsOk (cc.map (·.1)) segs = true) :
     NoFatal o cfg rows := by
   intro r _
@@ -86,7 +102,7 @@ theorem noFatal_template (o : Oracles) (cfg : Cfg) (rows : List (List Str)) (cc 
     cases hf : e.fatal with
     | false => exact hf
     | true =>
-      have := fatal_only_from_describe o cfg r e hp hf
+      have := fatal_only_from_describe o cfg hdf r e hp hf
       simp [describe, hm, hcc, htpl, formatTemplate, fmtScan_segs _ _ _ (segsOk_of_refsOk r cc segs hrefs)] at this
 
 /-- Reading two tables one after the other = reading their concatenation. -/
@@ -143,7 +159,7 @@ theorem accept_iff (o : Oracles) (cfg : Cfg) (row : List Str) (hfix : cfg.skipNo
     (∃ t, parseRow o cfg row = .ok t) ↔
       maxCol cfg.spec < row.length ∧
       (∃ tok dt, (cell row cfg.spec.dateCol).isEmpty = false ∧
-          dateToken cfg.spec (cell row cfg.spec.dateCol) = some tok ∧ o.strptime cfg.spec.dateFormat tok = some dt) ∧
+          dateToken cfg.spec (cell row cfg.spec.dateCol) = some tok ∧ o.strptime cfg.spec.dateFormat tok = .ok dt) ∧
       (∃ desc caps, describe cfg.spec row = .ok (desc, caps) ∧ desc.isEmpty = false) ∧
       (∃ q, (cell row cfg.spec.amountCol).isEmpty = false ∧ rawAmount o cfg row = some q ∧
           q.isFinite = true ∧ q.isZero = false) := by
@@ -177,7 +193,7 @@ def errOf : Except Err Txn → Option Err
 def d5Oracle : Oracles where
   pyFloat s := if s = ['n', 'a', 'n'] then some ⟨false, 0x7ff8000000000000⟩
     else if s = ['1', '2', '.', '5'] then some ⟨false, 0x4029000000000000⟩ else none
-  strptime _ tok := if tok = ['0', '1', '/', '1', '5', '/', '2', '0', '2', '5'] then some ['o', 'k'] else none
+  strptime _ tok := if tok = ['0', '1', '/', '1', '5', '/', '2', '0', '2', '5'] then .ok ['o', 'k'] else .error .valueError
 
 def d5Spec : Spec := { dateCol := 0, dateFormat := ['%', 'm', '/', '%', 'd', '/', '%', 'Y'], amountCol := 2, descCol := some 1 }
 def d5Row : List Str := [['0', '1', '/', '1', '5', '/', '2', '0', '2', '5'], ['C', 'O', 'F', 'F', 'E', 'E'], ['n', 'a', 'n']]
@@ -216,7 +232,7 @@ theorem fidelity (o : Oracles) (cfg : Cfg) (row : List Str) (t : Txn) (h : parse
     ∃ desc caps tok,
       describe cfg.spec row = .ok (desc, caps) ∧ t.rawDescription = desc ∧
       t.field = (if caps.isEmpty then none else some caps) ∧
-      dateToken cfg.spec (cell row cfg.spec.dateCol) = some tok ∧ o.strptime cfg.spec.dateFormat tok = some t.date ∧
+      dateToken cfg.spec (cell row cfg.spec.dateCol) = some tok ∧ o.strptime cfg.spec.dateFormat tok = .ok t.date ∧
       t.source = sourceOf cfg ∧ t.isCredit = t.amount.ltZero ∧ t.location = locationOf cfg.spec row desc := by
   obtain ⟨-, desc, caps, tok, dt, q, hd, -, -, -, htok, hdt, -, -, -, rfl⟩ := (parseRow_ok_iff o cfg row t).mp h
   exact ⟨desc, caps, tok, hd, rfl, rfl, htok, hdt, rfl, rfl, rfl⟩
@@ -479,5 +495,407 @@ example :
 /-- the style hypothesis of the round-trip theorems is satisfiable -/
 example : ∀ c, (Style.mk true false (some '€') .postSpace false).symbol = some c → isCurrency c = true := by
   intro c h; cases h; decide
+
+/-! ## the date: `datetime.strptime` inside the model
+
+`Strptime.oracles T pf` answers `strptime` with the model of CPython's `_strptime` (`Strptime.strptime`); `T` = CPython's
+character tables (which characters are decimal digits and what they are worth, which characters a literal matches under
+IGNORECASE, `str.lower`), of which the theorems assume only what `TablesOk` says (their restriction to ASCII);
+`asciiTables_ok` shows that this is satisfiable. -/
+
+section Date
+open TallyVerif.Strptime
+
+/-- `matching`: the matcher inside `strptime` is the regular-expression engine's ordered-choice backtracking - it returns
+`r` exactly when `r` comes from the FIRST choice vector, in priority order (alternatives of a directive in the order
+written, white space longest first, earlier items more significant), under which the compiled format matches a prefix of the
+text; and nothing exactly when no choice vector matches. -/
+theorem strptime_match_is_first (T : Tables) (items : List Item) (s : Str) :
+    (∀ r, matchItems T items s = some r ↔ IsFirst T items s r) ∧
+    (matchItems T items s = none ↔ ∀ v, matchWith T items v s = none) :=
+  matchItems_first T items s
+
+/-- `round trip`: for EVERY format whose directives are among `%Y %y %m %d %b %B %H %M %S` and name year, month and day
+(`FmtOk`: nothing is asked of the separators), EVERY valid date-time whose year the format can write (`YearFits`: 1969..2068
+under `%y`) and EVERY spelling `strptime` is meant to accept (`SpellsOk`: one or two digits for day / month / hour / minute /
+second - one digit only where no digit follows -, any white space for a white-space run, any letter case of the month name):
+reading the written text gives back the date (and the time fields the format mentions; the others are 0). -/
+theorem strptime_strftimeWith (T : Tables) (hT : TablesOk T) (fmt : Str) (sps : List Spell) (t : DateTime)
+    (hf : FmtOk fmt = true) (hv : t.valid = true) (hy : YearFits fmt t = true) (hs : SpellsOk T sps fmt t = true) :
+    strptime T fmt (strftimeWith sps fmt t) = .ok (readBack fmt t) := by
+  unfold FmtOk at hf; unfold YearFits at hy; unfold SpellsOk at hs; unfold strftimeWith readBack
+  cases hc : compile fmt with
+  | error e => simp [hc] at hf
+  | ok items =>
+    simp only [hc] at hf hy hs ⊢
+    exact strptime_of_items hT fmt items sps t hc hf hv hy hs
+
+/-- `round trip`, the spelling `strftime` itself writes (zero padded, month names capitalised): no condition on the
+spelling is left - `%Y%m%d` reads back as well as `%m/%d/%Y`. -/
+theorem strptime_strftime (T : Tables) (hT : TablesOk T) (fmt : Str) (t : DateTime)
+    (hf : FmtOk fmt = true) (hv : t.valid = true) (hy : YearFits fmt t = true) :
+    strptime T fmt (strftime fmt t) = .ok (readBack fmt t) := by
+  refine strptime_strftimeWith T hT fmt [] t hf hv hy ?_
+  unfold SpellsOk
+  cases hc : compile fmt with
+  | error e => simp [FmtOk, hc] at hf
+  | ok items => exact spellsOk_nil T items t
+
+/-- the year, month and day read back are the date's own -/
+theorem readBack_date (fmt : Str) (t : DateTime) :
+    (readBack fmt t).year = t.year ∧ (readBack fmt t).month = t.month ∧ (readBack fmt t).day = t.day := by
+  unfold readBack; cases compile fmt <;> simp [restrict]
+
+/-- `determinism of the reading`: under an `FmtOk` format no two different dates are written the same way, whatever the
+(accepted) spellings: equal texts ⇒ equal year, month and day (and equal mentioned time fields). -/
+theorem strftime_injective (T : Tables) (hT : TablesOk T) (fmt : Str) (sps₁ sps₂ : List Spell) (t₁ t₂ : DateTime)
+    (hf : FmtOk fmt = true) (hv₁ : t₁.valid = true) (hv₂ : t₂.valid = true) (hy₁ : YearFits fmt t₁ = true)
+    (hy₂ : YearFits fmt t₂ = true) (hs₁ : SpellsOk T sps₁ fmt t₁ = true) (hs₂ : SpellsOk T sps₂ fmt t₂ = true)
+    (h : strftimeWith sps₁ fmt t₁ = strftimeWith sps₂ fmt t₂) :
+    readBack fmt t₁ = readBack fmt t₂ ∧ t₁.year = t₂.year ∧ t₁.month = t₂.month ∧ t₁.day = t₂.day := by
+  have h1 := strptime_strftimeWith T hT fmt sps₁ t₁ hf hv₁ hy₁ hs₁
+  have h2 := strptime_strftimeWith T hT fmt sps₂ t₂ hf hv₂ hy₂ hs₂
+  rw [h, h2] at h1
+  have heq : readBack fmt t₂ = readBack fmt t₁ := by injection h1
+  have d1 := readBack_date fmt t₁
+  have d2 := readBack_date fmt t₂
+  rw [heq] at d2
+  exact ⟨heq.symm, d1.1.symm.trans d2.1, d1.2.1.symm.trans d2.2.1, d1.2.2.symm.trans d2.2.2⟩
+
+/-- `rejection` (1): whatever `strptime` returns is a date of the calendar - month 1..12, day within the month (29 February
+only in leap years), year 1..9999, a time of the day.  No text is ever read as 30 February, month 13 or day 32. -/
+theorem strptime_ok_valid (T : Tables) (fmt s : Str) (t : DateTime) (h : strptime T fmt s = .ok t) : t.valid = true := by
+  obtain ⟨items, caps, a, -, -, -, hfin⟩ := strptime_ok_parts h
+  exact finish_valid a t hfin
+
+/-- `rejection` (2): a text is read only if it is in the language of the format from its first character to its last: there
+is a choice of one alternative per directive and of a (positive) number of white-space characters per white-space run
+under which the compiled format matches the WHOLE text (a wrong separator, a field outside its alternatives, trailing text:
+no such choice exists, so the result is an error). -/
+theorem strptime_ok_in_language (T : Tables) (fmt s : Str) (t : DateTime) (h : strptime T fmt s = .ok t) :
+    ∃ items v caps, compile fmt = .ok items ∧ matchWith T items v s = some (caps, []) := by
+  obtain ⟨items, caps, a, hc, hm, -, -⟩ := strptime_ok_parts h
+  obtain ⟨v, hv, -⟩ := ((matchItems_first T items s).1 (caps, [])).mp hm
+  exact ⟨items, v, caps, hc, hv⟩
+
+/-- a date format that compiles never makes `strptime` raise anything but `ValueError` -/
+theorem dateFormatOk_of_compile (T : Tables) (pf : Str → Option F64) (cfg : Cfg) (items : List Item)
+    (hc : compile cfg.spec.dateFormat = .ok items) : DateFormatOk (oracles T pf) cfg := by
+  intro tok e h
+  simp only [oracles, dateOracle] at h
+  split at h
+  · cases h
+  · rename_i e' he
+    cases h
+    exact strptime_err_of_compile_ok hc he
+
+/-- the stages of `parseRow` before the date is parsed all succeed -/
+def ReachesDate (cfg : Cfg) (row : List Str) (tok : Str) : Prop :=
+  maxCol cfg.spec < row.length ∧ (∃ desc caps, describe cfg.spec row = .ok (desc, caps) ∧ desc.isEmpty = false) ∧
+    (cell row cfg.spec.dateCol).isEmpty = false ∧ (cell row cfg.spec.amountCol).isEmpty = false ∧
+    dateToken cfg.spec (cell row cfg.spec.dateCol) = some tok
+
+/-- what `parseRow` returns for a row that gets as far as its date, when `strptime` fails -/
+theorem parseRow_date_error (o : Oracles) (cfg : Cfg) (row : List Str) (tok : Str) (e : DateErr)
+    (hr : ReachesDate cfg row tok) (he : o.strptime cfg.spec.dateFormat tok = .error e) :
+    parseRow o cfg row = .error e.toErr := by
+  obtain ⟨hlen, ⟨desc, caps, hd, hdne⟩, h1, h3, htok⟩ := hr
+  have hlen' : ¬ row.length ≤ maxCol cfg.spec := by omega
+  unfold parseRow
+  simp only [hlen', if_false, hd, h1, hdne, h3, htok, he, Bool.or_self, Bool.false_eq_true]
+
+/-- `rejection` (3), the row: if the date token is not read by `strptime` (any `ValueError`: not in the format's language,
+text left over, an impossible date), the row is skipped - and, by `bad_row_neutral`, every other row is read as before. -/
+theorem bad_date_row_neutral (T : Tables) (pf : Str → Option F64) (cfg : Cfg) (a b : List (List Str)) (row : List Str)
+    (tok : Str) (e : StrpErr) (hr : ReachesDate cfg row tok) (he : strptime T cfg.spec.dateFormat tok = .error e)
+    (hv : e.toDateErr = .valueError) (ha : NoFatal (oracles T pf) cfg a) (hb : NoFatal (oracles T pf) cfg b) :
+    parseRow (oracles T pf) cfg row = .error .valueError ∧
+    parseFile (oracles T pf) cfg (a ++ row :: b) = parseFile (oracles T pf) cfg (a ++ b) := by
+  have hrow : parseRow (oracles T pf) cfg row = .error .valueError := by
+    have := parseRow_date_error (oracles T pf) cfg row tok .valueError hr (by simp [oracles, dateOracle, he, hv])
+    simpa [DateErr.toErr] using this
+  exact ⟨hrow, bad_row_neutral (oracles T pf) cfg a b row ha hb .valueError hrow rfl⟩
+
+/-- `duplicate directive`: a date format that uses a directive twice (`%d/%d/%Y`) makes `strptime` raise `re.error`, which
+the per-row `except (ValueError, IndexError)` does not catch: the first row that gets as far as its date aborts the whole
+file (observation O-strptime-1 in notes/strptime_notes.md; the excluded case of `DateFormatOk`). -/
+theorem dup_directive_aborts_file (T : Tables) (pf : Str → Option F64) (cfg : Cfg) (pre post : List (List Str)) (row : List Str)
+    (tok : Str) (hre : compile cfg.spec.dateFormat = .error .reError) (hr : ReachesDate cfg row tok)
+    (hpre : NoFatal (oracles T pf) cfg pre) :
+    parseFile (oracles T pf) cfg (pre ++ row :: post) = .error .reError := by
+  have hrow : parseRow (oracles T pf) cfg row = .error .reError := by
+    have := parseRow_date_error (oracles T pf) cfg row tok .reError hr
+      (by simp [oracles, dateOracle, strptime_err_of_compile_err hre, StrpErr.toDateErr])
+    simpa [DateErr.toErr] using this
+  exact parseFile_fatal (oracles T pf) cfg pre row post hpre .reError hrow rfl
+
+/-- `carries the row's date`: a row that gets as far as its date, whose date token `strptime` reads as `t`, and whose amount
+is a finite non-zero number, becomes the transaction whose date is `t` (written `t.isoformat()`). -/
+theorem parseRow_of_date (T : Tables) (pf : Str → Option F64) (cfg : Cfg) (row : List Str) (tok : Str) (t : DateTime)
+    (desc : Str) (caps : List (Str × Str)) (q : F64) (hr : ReachesDate cfg row tok)
+    (hd : describe cfg.spec row = .ok (desc, caps))
+    (hdate : strptime T cfg.spec.dateFormat tok = .ok t) (hq : rawAmount (oracles T pf) cfg row = some q)
+    (hfin : q.isFinite = true) (hz : q.isZero = false) :
+    parseRow (oracles T pf) cfg row = .ok (mkTxn cfg row desc caps (isoformat t) q) := by
+  obtain ⟨hlen, ⟨desc', caps', hd', hdne⟩, h1, h3, htok⟩ := hr
+  rw [hd] at hd'; cases hd'
+  refine (parseRow_ok_iff (oracles T pf) cfg row _).mpr ⟨hlen, desc, caps, tok, isoformat t, q, hd, h1, hdne, h3, htok, ?_, hq,
+    fun _ => hfin, by rw [applySign_isZero]; exact hz, rfl⟩
+  simp [oracles, dateOracle, hdate]
+
+/-- the format neither begins nor ends with white space -/
+def FmtEdgesOk (fmt : Str) : Bool :=
+  match compile fmt with
+  | .ok items => !startsWithSpaces items && lastNotSpaces items && !items.isEmpty
+  | .error _ => false
+
+/-- `the date cell` (format string without white space, e.g. `%m/%d/%Y`): blanks around the date are stripped by the caller, and
+whatever follows the date after white space - the weekday of `01/02/2017  Mon`, a time - is cut off: the token handed to
+`strptime` is exactly the date as written, so (by `strptime_strftimeWith` and `parseRow_of_date`) the row's transaction
+carries exactly that date. -/
+theorem date_cell_token_cut (T : Tables) (hT : TablesOk T) (spec : Spec) (sps : List Spell) (t : DateTime) (pre post : Str)
+    (hf : FmtOk spec.dateFormat = true) (hfmt : spec.dateFormat.all (fun c => !isPySpace c) = true) (hv : t.valid = true)
+    (hs : SpellsOk T sps spec.dateFormat t = true) (hpre : pre.all isPySpace = true)
+    (hpost : post = [] ∨ ∃ c r, post = c :: r ∧ isPySpace c = true) :
+    dateToken spec (strip (pre ++ strftimeWith sps spec.dateFormat t ++ post)) = some (strftimeWith sps spec.dateFormat t) := by
+  have hblank := no_blank_of_noSpaces spec.dateFormat hfmt
+  unfold FmtOk at hf; unfold SpellsOk at hs
+  cases hc : compile spec.dateFormat with
+  | error e => simp [hc] at hf
+  | ok items =>
+    simp only [hc] at hf hs
+    have hns := scan_noSpaces spec.dateFormat hfmt items (compile_ok_scan hc).1
+    have ht := fieldsOk_of_valid t hv
+    have hw := scan_wellShaped spec.dateFormat items (compile_ok_scan hc).1
+    have hren : (groupNames items).all renderable = true := by
+      simp only [namesOk, Bool.and_eq_true] at hf; exact hf.1.1.1
+    have hnosp := render_no_space (T := T) t ht items sps hw hren hs hns
+    have hne : renderItems sps items t ≠ [] := by
+      cases items with
+      | nil => simp [namesOk, groupNames] at hf
+      | cons it is =>
+        obtain ⟨c, r, h, -, -⟩ := render_head hT t ht it is sps hw hren hs
+        rw [h]; simp
+    simp only [strftimeWith, hc]
+    exact dateToken_first spec pre _ post hblank hne hnosp hpre hpost
+
+/-- `the date cell` (format with a blank, e.g. `%d %b %y`): the whole cell, stripped of surrounding blanks, is handed to
+`strptime`. -/
+theorem date_cell_token_whole (T : Tables) (hT : TablesOk T) (spec : Spec) (sps : List Spell) (t : DateTime) (pre post : Str)
+    (hf : FmtOk spec.dateFormat = true) (he : FmtEdgesOk spec.dateFormat = true)
+    (hblank : spec.dateFormat.contains ' ' = true) (hv : t.valid = true)
+    (hs : SpellsOk T sps spec.dateFormat t = true) (hpre : pre.all isPySpace = true) (hpost : post.all isPySpace = true) :
+    dateToken spec (strip (pre ++ strftimeWith sps spec.dateFormat t ++ post)) = some (strftimeWith sps spec.dateFormat t) := by
+  unfold FmtOk at hf; unfold FmtEdgesOk at he; unfold SpellsOk at hs
+  cases hc : compile spec.dateFormat with
+  | error e => simp [hc] at hf
+  | ok items =>
+    simp only [hc, Bool.and_eq_true, Bool.not_eq_true', List.isEmpty_eq_false_iff] at hf he hs
+    have ht := fieldsOk_of_valid t hv
+    have hw := scan_wellShaped spec.dateFormat items (compile_ok_scan hc).1
+    have hren : (groupNames items).all renderable = true := by
+      simp only [namesOk, Bool.and_eq_true] at hf; exact hf.1.1.1
+    simp only [strftimeWith, hc]
+    refine dateToken_whole spec pre _ post hblank ?_ (render_last hT t ht items sps hw hren hs he.1.2) hpre hpost
+    cases items with
+    | nil => exact absurd rfl he.2
+    | cons it is =>
+      obtain ⟨c, r, h, hc', -⟩ := render_head hT t ht it is sps hw hren hs
+      intro c' hc''
+      rw [h] at hc''; cases hc''
+      exact hc' (by simpa [startsWithSpaces] using he.1.1)
+
+/-- `carries the row's date`, end to end and with no date oracle (format without white space): a row with enough columns, a
+non-empty description, an amount that is a finite non-zero number, and a date cell consisting of blanks, the date `t` written
+under the row's own `FmtOk` date format in any accepted spelling, and then nothing or white space followed by anything (a
+weekday …) becomes exactly one transaction, and that transaction's date is `t` (with the time fields the format mentions). -/
+theorem row_carries_written_date (T : Tables) (hT : TablesOk T) (pf : Str → Option F64) (cfg : Cfg) (row : List Str)
+    (sps : List Spell) (t : DateTime) (pre post desc : Str) (caps : List (Str × Str)) (q : F64)
+    (hf : FmtOk cfg.spec.dateFormat = true) (hfmt : cfg.spec.dateFormat.all (fun c => !isPySpace c) = true)
+    (hv : t.valid = true) (hy : YearFits cfg.spec.dateFormat t = true)
+    (hs : SpellsOk T sps cfg.spec.dateFormat t = true) (hlen : maxCol cfg.spec < row.length)
+    (hcell : row.getD cfg.spec.dateCol [] = pre ++ strftimeWith sps cfg.spec.dateFormat t ++ post)
+    (hpre : pre.all isPySpace = true) (hpost : post = [] ∨ ∃ c r, post = c :: r ∧ isPySpace c = true)
+    (hd : describe cfg.spec row = .ok (desc, caps)) (hdne : desc.isEmpty = false)
+    (hane : (cell row cfg.spec.amountCol).isEmpty = false) (hq : rawAmount (oracles T pf) cfg row = some q)
+    (hfin : q.isFinite = true) (hz : q.isZero = false) :
+    parseRow (oracles T pf) cfg row =
+      .ok (mkTxn cfg row desc caps (isoformat (readBack cfg.spec.dateFormat t)) q) := by
+  have htok : dateToken cfg.spec (cell row cfg.spec.dateCol) = some (strftimeWith sps cfg.spec.dateFormat t) := by
+    unfold cell; rw [hcell]
+    exact date_cell_token_cut T hT cfg.spec sps t pre post hf hfmt hv hs hpre hpost
+  have hne : (cell row cfg.spec.dateCol).isEmpty = false := by
+    cases hc : cell row cfg.spec.dateCol with
+    | nil =>
+      rw [hc] at htok
+      unfold dateToken at htok
+      rw [if_neg (by rw [no_blank_of_noSpaces _ hfmt]; exact Bool.false_ne_true)] at htok
+      simp [firstToken, lstrip] at htok
+    | cons c r => rfl
+  exact parseRow_of_date T pf cfg row _ (readBack cfg.spec.dateFormat t) desc caps q
+    ⟨hlen, ⟨desc, caps, hd, hdne⟩, hne, hane, htok⟩ hd (strptime_strftimeWith T hT _ sps t hf hv hy hs) hq hfin hz
+
+/-- the same for a date format with a blank (`%d %b %y`): the cell is blanks, the written date, blanks -/
+theorem row_carries_written_date_blank (T : Tables) (hT : TablesOk T) (pf : Str → Option F64) (cfg : Cfg) (row : List Str)
+    (sps : List Spell) (t : DateTime) (pre post desc : Str) (caps : List (Str × Str)) (q : F64)
+    (hf : FmtOk cfg.spec.dateFormat = true) (he : FmtEdgesOk cfg.spec.dateFormat = true)
+    (hblank : cfg.spec.dateFormat.contains ' ' = true) (hv : t.valid = true) (hy : YearFits cfg.spec.dateFormat t = true)
+    (hs : SpellsOk T sps cfg.spec.dateFormat t = true) (hlen : maxCol cfg.spec < row.length)
+    (hcell : row.getD cfg.spec.dateCol [] = pre ++ strftimeWith sps cfg.spec.dateFormat t ++ post)
+    (hpre : pre.all isPySpace = true) (hpost : post.all isPySpace = true)
+    (hd : describe cfg.spec row = .ok (desc, caps)) (hdne : desc.isEmpty = false)
+    (hane : (cell row cfg.spec.amountCol).isEmpty = false) (hq : rawAmount (oracles T pf) cfg row = some q)
+    (hfin : q.isFinite = true) (hz : q.isZero = false) :
+    parseRow (oracles T pf) cfg row =
+      .ok (mkTxn cfg row desc caps (isoformat (readBack cfg.spec.dateFormat t)) q) := by
+  have htok : dateToken cfg.spec (cell row cfg.spec.dateCol) = some (strftimeWith sps cfg.spec.dateFormat t) := by
+    unfold cell; rw [hcell]
+    exact date_cell_token_whole T hT cfg.spec sps t pre post hf he hblank hv hs hpre hpost
+  have hdate := strptime_strftimeWith T hT _ sps t hf hv hy hs
+  have hne : (cell row cfg.spec.dateCol).isEmpty = false := by
+    cases hc : cell row cfg.spec.dateCol with
+    | nil =>
+      rw [hc] at htok
+      unfold dateToken at htok
+      rw [if_pos hblank] at htok
+      simp only [Option.some.injEq] at htok
+      -- the written text would be empty, but an `FmtOk` format does not match the empty text
+      rw [← htok] at hdate
+      have hnil := strptime_ok_parts hdate
+      obtain ⟨items, caps', a, hc', hm, -, -⟩ := hnil
+      have hfo := hf
+      unfold FmtOk at hfo; rw [hc'] at hfo
+      exfalso
+      cases items with
+      | nil => simp [namesOk, groupNames] at hfo
+      | cons it is =>
+        have ht := fieldsOk_of_valid t hv
+        have hw := scan_wellShaped _ _ (compile_ok_scan hc').1
+        have hren : (groupNames (it :: is)).all renderable = true := by
+          simp only [namesOk, Bool.and_eq_true] at hfo; exact hfo.1.1.1
+        have hs' := hs
+        unfold SpellsOk at hs'; rw [hc'] at hs'
+        obtain ⟨c, r, h, -, -⟩ := render_head hT t ht it is sps hw hren hs'
+        have : strftimeWith sps cfg.spec.dateFormat t = c :: r := by simp only [strftimeWith, hc']; exact h
+        rw [this] at htok; cases htok
+    | cons c r => rfl
+  exact parseRow_of_date T pf cfg row _ (readBack cfg.spec.dateFormat t) desc caps q
+    ⟨hlen, ⟨desc, caps, hd, hdne⟩, hne, hane, htok⟩ hd hdate hq hfin hz
+
+
+/-! ### non-vacuity and observations for the date theorems (kernel-evaluated on the model) -/
+
+def dateOf (r : Except StrpErr DateTime) : Option DateTime :=
+  match r with
+  | .ok t => some t
+  | .error _ => none
+def dateErr (r : Except StrpErr DateTime) : Option StrpErr :=
+  match r with
+  | .ok _ => none
+  | .error e => some e
+
+/-- the hypothesis on the character tables is satisfiable -/
+example : TablesOk asciiTables := asciiTables_ok
+
+/-- `FmtOk` holds for the formats people write for bank exports - with or without separators, with names, literal text and
+times - and fails without a year, with a repeated directive, a stray `%`, an unknown or unsupported directive -/
+example :
+    (["%m/%d/%Y", "%d.%m.%Y", "%Y-%m-%d", "%d %b %y", "%b %d, %Y", "%m/%d/%y", "%Y%m%d", "%d-%b-%Y", "%Y-%m-%dT%H:%M:%S",
+      "Posted %d %B %Y (%H:%M)", "%d%%%m%%%Y"].all fun f => FmtOk f.toList) = true ∧
+    (["%m/%d", "%d/%d/%Y", "%m/%d/%Y%", "%e/%m/%Y", "%m/%d/%Y %z", "%j %Y"].all fun f => !FmtOk f.toList) = true := by
+  decide +kernel
+
+/-- leap day, two-digit year, month name: hypotheses of `strptime_strftime` hold, the text is `29 Feb 24`, and it reads back -/
+example :
+    let t : DateTime := { year := 2024, month := 2, day := 29 }
+    let fmt := "%d %b %y".toList
+    FmtOk fmt = true ∧ t.valid = true ∧ YearFits fmt t = true ∧ strftime fmt t = "29 Feb 24".toList ∧
+      dateOf (strptime asciiTables fmt (strftime fmt t)) = some t := by
+  decide +kernel
+
+/-- another spelling: `1/5/2024 9:07` under `%m/%d/%Y %H:%M` (one-digit month, day, hour; the minute keeps its zero),
+`5  JAN\t2024` under `%d %b %Y` - `SpellsOk` holds and both read back; the spelling `1/5/2024` is NOT accepted for
+`%m%d%Y` (a digit follows the one-digit month) -/
+example :
+    let t : DateTime := { year := 2024, month := 1, day := 5, hour := 9, minute := 7 }
+    let f1 := "%m/%d/%Y %H:%M".toList
+    let s1 : List Spell := [{ unpad := true }, {}, { unpad := true }, {}, {}, {}, { unpad := true }, {}, {}]
+    let f2 := "%d %b %Y".toList
+    let s2 : List Spell := [{ unpad := true }, { blanks := some [' ', ' '] }, { name := some "JAN".toList }, { blanks := some ['\t'] }]
+    SpellsOk asciiTables s1 f1 t = true ∧ strftimeWith s1 f1 t = "1/5/2024 9:07".toList ∧
+      dateOf (strptime asciiTables f1 (strftimeWith s1 f1 t)) = some t ∧
+    SpellsOk asciiTables s2 f2 t = true ∧ strftimeWith s2 f2 t = "5  JAN\t2024".toList ∧
+      dateOf (strptime asciiTables f2 (strftimeWith s2 f2 t)) = some { year := 2024, month := 1, day := 5 } ∧
+    SpellsOk asciiTables [{ unpad := true }, { unpad := true }] "%m%d%Y".toList t = false := by
+  decide +kernel
+
+/-- **where ambiguity bites** (observation, not a defect): under `%m%d%Y` - `FmtOk`, but written with one-digit fields,
+which `SpellsOk` refuses - 11 January 2024 and 1 November 2024 are both written `1112024`; `strptime` (CPython and the
+model) reads 1 November: the first alternative of `%m` that matches is `1[0-2]`, and the rest can then still be matched.
+Written by `strftime` (`01112024` / `11012024`) the two dates differ and both read back. -/
+example :
+    let fmt := "%m%d%Y".toList
+    let one : List Spell := [{ unpad := true }, { unpad := true }]
+    let jan11 : DateTime := { year := 2024, month := 1, day := 11 }
+    let nov1 : DateTime := { year := 2024, month := 11, day := 1 }
+    FmtOk fmt = true ∧ SpellsOk asciiTables one fmt jan11 = false ∧
+    strftimeWith one fmt jan11 = "1112024".toList ∧ strftimeWith one fmt nov1 = "1112024".toList ∧
+    dateOf (strptime asciiTables fmt "1112024".toList) = some nov1 ∧
+    dateOf (strptime asciiTables fmt (strftime fmt jan11)) = some jan11 ∧
+    dateOf (strptime asciiTables fmt (strftime fmt nov1)) = some nov1 := by
+  decide +kernel
+
+/-- `rejection`, concretely, under `%m/%d/%Y`: wrong separator, month 13, day 32, 30 February, 29 February of a common year,
+trailing text, nothing; and 29 February without a year (`%m/%d`: the year defaults to 1900), a repeated directive
+(`re.error`, not a `ValueError`), a stray `%` -/
+example :
+    let f := "%m/%d/%Y".toList
+    let r (s : String) := dateErr (strptime asciiTables f s.toList)
+    r "01-15-2025" = some .noMatch ∧ r "13/01/2024" = some .noMatch ∧ r "01/32/2024" = some .noMatch ∧
+    r "02/30/2024" = some .outOfRange ∧ r "02/29/2023" = some .outOfRange ∧ r "01/15/2025x" = some (.unconverted ['x']) ∧
+    r "" = some .noMatch ∧ r "02/29/2024" = none ∧
+    dateErr (strptime asciiTables "%m/%d".toList "02/29".toList) = some .outOfRange ∧
+    dateErr (strptime asciiTables "%d/%d/%Y".toList "01/01/2024".toList) = some .reError ∧
+    dateErr (strptime asciiTables "%m/%d/%Y%".toList "01/01/2024".toList) = some .stray := by
+  decide +kernel
+
+/-- `float()` on the spelling used below -/
+def datePf : Str → Option F64 := fun s => if s = ['1', '2', '.', '5'] then some ⟨false, 0x4029000000000000⟩ else none
+
+/-- a table read with NO date oracle (`Strptime.oracles asciiTables`): `01/15/2025  Wed` (weekday cut off), `02/30/2025` (skipped
+alone), ` 1/5/2025 ` (blanks stripped, one-digit fields) - two transactions, carrying 15 and 5 January 2025; the hypotheses
+`ReachesDate` / `NoFatal` hold; and the same table under the format `%d/%d/%Y` aborts with `re.error` -/
+example :
+    let cfg : Cfg := { spec := d5Spec, eu := false, sourceName := ['B'] }
+    let o := oracles asciiTables datePf
+    let row (d : String) : List Str := [d.toList, "TEA".toList, "12.5".toList]
+    let rows := [row "01/15/2025  Wed", row "02/30/2025", row " 1/5/2025 "]
+    (∀ r ∈ rows, rowFatal o cfg r = false) ∧
+    (match parseFile o cfg rows with
+      | .ok ts => some (ts.map fun t => String.ofList t.date)
+      | .error _ => none) = some ["2025-01-15T00:00:00", "2025-01-05T00:00:00"] ∧
+    errOf (parseRow o cfg (row "02/30/2025")) = some .valueError ∧
+    dateToken cfg.spec (cell (row "01/15/2025  Wed") 0) = some "01/15/2025".toList ∧
+    (match parseFile o { cfg with spec := { d5Spec with dateFormat := "%d/%d/%Y".toList } } rows with
+      | .ok _ => none
+      | .error e => some e) = some .reError := by
+  decide +kernel
+
+/-- the hypotheses of `row_carries_written_date` hold for the row `  1/5/2025  Wed , TEA , 12.5` under `%m/%d/%Y` -/
+example :
+    let cfg : Cfg := { spec := d5Spec, eu := false, sourceName := ['B'] }
+    let row : List Str := ["  1/5/2025  Wed ".toList, "TEA".toList, "12.5".toList]
+    let t : DateTime := { year := 2025, month := 1, day := 5 }
+    (okOf (parseRow (oracles asciiTables datePf) cfg row)).map (fun x => String.ofList x.date) = some "2025-01-05T00:00:00" := by
+  intro cfg row _t
+  have h := row_carries_written_date asciiTables asciiTables_ok datePf cfg row
+    [{ unpad := true }, {}, { unpad := true }] _t "  ".toList "  Wed ".toList "TEA".toList [] ⟨false, 0x4029000000000000⟩
+    (by decide +kernel) (by decide +kernel) (by decide +kernel) (by decide +kernel) (by decide +kernel)
+    (by decide +kernel) (by decide +kernel) (by decide +kernel) (Or.inr ⟨' ', " Wed ".toList, by decide +kernel, by decide +kernel⟩)
+    (by rfl) (by decide +kernel) (by decide +kernel) (by decide +kernel) (by decide +kernel) (by decide +kernel)
+  rw [h]
+  decide +kernel
+
+end Date
 
 end TallyVerif.Props.C05
